@@ -154,9 +154,6 @@ def parseOp (op : String) (args : List Sexp) : Option Op :=
       if !nodupKeys kvs then Option.none
       let consts := kvs.filterMap fun kv => match kv.2 with | .inl v => some (kv.1, v) | .inr _ => Option.none
       let fns := kvs.filterMap fun kv => match kv.2 with | .inr f => some (kv.1, f) | .inl _ => Option.none
-      -- NOT modelled: `Dict.__call__` offers every callable the keyword `key = <name of the new column>` as a default
-      -- (src/pyg_base/_dict.py:88, `_key = 'key'`), so a parameter called `key` that is not a column is not a `TypeError`
-      if fns.any (fun kf => kf.2.args.contains "key") then Option.none
       pure (.call (← handleOf dst) (← handleOf h) consts fns)
   | "relabel", [dst, h, affix, kw] => do
       let affix ← match cellOf affix with
